@@ -104,7 +104,7 @@ func (rt *Transfer) Do(c *rsyncwire.Conn, fileList []*File, noReport bool) (*rsy
 	// error, or vice versa (instead, return and let the goroutine finish in the
 	// background).
 	eg.Go(func() error {
-		return waitFor(ctx, func() error { return rt.GenerateFiles(fileList) })
+		return waitFor(ctx, func() error { return rt.GenerateFiles(ctx, fileList) })
 	})
 	eg.Go(func() error {
 		return waitFor(ctx, func() error { return rt.RecvFiles(fileList) })
